@@ -19,6 +19,7 @@ struct VarMeta {
   int vartype = 0;   // OrcVarType
   int size = 0;
   int param_type = 0;
+  int alignment = 0; // declared alignment of an array (0 = none)
   int shift_max = 0; // >0: parameter feeds a scalar shift, keep value below this
 };
 struct ProgMeta {
@@ -54,7 +55,11 @@ std::string describe_program(OrcProgram *p);
 // ---- running ---------------------------------------------------------------
 struct RunData {
   int n = 0, m = 1;
-  std::vector<uint8_t> arr[ORC_N_VARIABLES];  // dest and source arrays (contents after the run for dests)
+  std::vector<uint8_t> arr[ORC_N_VARIABLES];  // backing store of dest and source arrays
+  int off[ORC_N_VARIABLES] = {0};             // start of the array inside the store: the alignment of every
+                                              // array is a seeded choice, never an accident of the heap
+  uint8_t *ptr(int i) { return arr[i].data() + off[i]; }
+  const uint8_t *ptr(int i) const { return arr[i].data() + off[i]; }
   int stride[ORC_N_VARIABLES] = {0};
   int params[ORC_N_VARIABLES] = {0};          // incl. high halves at +ORC_N_PARAMS
   int acc[4] = {0, 0, 0, 0};
@@ -89,6 +94,13 @@ void walk_codemem(Layout &l);
 // Structural invariants of every region (tiling, order, links, no adjacent free chunks).
 // Returns "" or a description; `key` gets a short stable class name.
 std::string check_layout(const Layout &l, std::string &key);
+
+// Native output hash of `spec` compiled and run in a fresh process (exec of
+// ourselves, no history, no faults).  Used to tell a history/fault/schedule
+// effect from a pure-function native-vs-emulation defect (C01's subject).
+bool pristine_native_hash(const std::string &spec, const std::string &target, unsigned long fmask, int n, uint64_t ds,
+                          uint64_t &hash_out);
+int pristine_main(int argc, char **argv);
 
 // Stack scribbler: fills a few KiB of stack below the caller with seeded bytes.
 void scribble_stack(uint64_t seed);
